@@ -40,6 +40,10 @@ def shards(tier, seed):
         out.append({'mode': 'enum', 'impl': 'c', 'variant': 'san', 'i': i, 'trees': 1 if tier == 'quick' else 12})
     for i in range(2 if tier == 'quick' else 8):
         out.append({'mode': 'enum', 'impl': 'py', 'i': i, 'trees': 1 if tier == 'quick' else 12})
+    # every (min, max) pair x exclusion flags on small stored trees: the lazy sequence is created on ghosts, asked for
+    # its truth value, its length, its first and last element - no node may stay pinned after any of these
+    for impl in ('c', 'py'):
+        out.append({'mode': 'viewgrid', 'impl': impl, 'fams': F.rotate(F.FAMILIES, seed, 2 if tier == 'quick' else 22)})
     return out
 
 
@@ -135,6 +139,8 @@ def _cases(shard):
 def run_shard(shard, ctx):
     if shard['mode'] == 'enum':
         return _enum(shard, ctx)
+    if shard['mode'] == 'viewgrid':
+        return _viewgrid(shard, ctx)
     ctx.hyp(_cases(shard), run_case, shard['n'], shard['mode'])
 
 
@@ -719,6 +725,29 @@ def _enum(shard, ctx):
                         'ops': [['minimize'], op + [{'sweep_at': at}]]}
                 if not ctx.run_case(case, run_case):
                     return
+
+
+def _viewgrid(shard, ctx):
+    n = 0
+    for fam in shard['fams']:
+        dom = [x for x in F.domain(fam, 'int') if x is not None]
+        mid = len(dom) // 2
+        base = dom[mid - 6:mid + 6:2] + dom[mid + 6:mid + 9]          # gaps between the first keys
+        bounds = [None] + dom[mid - 7:mid + 10]
+        for kind in ('BTree', 'TreeSet'):
+            for sizes in ([3, 2], [4, 3], [2, 2]):
+                cfg = {'fam': fam, 'kind': kind, 'impl': shard['impl'], 'ktype': 'int', 'sizes': sizes}
+                meths = ['keys'] + (['items'] if kind == 'BTree' else [])
+                for a in bounds:
+                    for b in bounds:
+                        for xa in (False, True):
+                            for xb in (False, True):
+                                case = {'cfg': cfg, 'base': base, 'basev': 1 if kind == 'BTree' else None,
+                                        'ops': [['minimize'], ['view', meths[(n // 3) % len(meths)], a, b, xa, xb, [0, -1]]]}
+                                n += 1
+                                if not ctx.run_case(case, run_case):
+                                    return
+    ctx.count('viewgrid_queries', n)
 
 
 def _count(case):
